@@ -82,6 +82,9 @@ def absRange (r : YangRange) : List Spec.Range.Iv := r.map fun p => (Spec.Number
 def uniform (fd : Nat) (r : YangRange) : Bool :=
   r.all fun p => p.min.fd == fd && p.max.fd == fd && decide (p.min.value < W) && decide (p.max.value < W)
 
+def showIvs (ivs : List Spec.Range.Iv) : String :=
+  "|".intercalate (ivs.map fun r => s!"{r.1}..{r.2}")
+
 def specStep (parent : Option YangRange) (mode : String) (fd : Nat) (s : List UInt8) (out : Option YangRange) : String :=
   let dec := mode == "dec"
   let f := if dec then fd else 0
@@ -99,7 +102,7 @@ def specStep (parent : Option YangRange) (mode : String) (fd : Nat) (s : List UI
         | none => "violates:accepted although a part is out of order, outside the parent's set or uses min/max without a parent"
         | some ivs =>
           if !Spec.Range.sdcB (absRange o) then "violates:result is not sorted, disjoint and coalesced"
-          else s!"violates:result does not denote the written set {repr ivs}"
+          else "violates:result does not denote the written set " ++ showIvs ivs
   | none =>
     if Spec.Range.conforms p w none then "holds"
     -- RFC 7950 length-arg has no negative literals: rejecting a length text with a minus sign is permitted
